@@ -149,3 +149,31 @@ func (v *VerifTable) Close() {
 	_ = v.t.closeHandle()
 	_ = v.lm.cache.close()
 }
+
+// VerifCursor is one long-lived table iterator (production tableIterator) for call-sequence
+// checks: the same iterator object receives Rewind / Seek / Next in any order.
+type VerifCursor struct {
+	it utils.Iterator
+}
+
+// NewCursor opens a table iterator in the given direction; Close it before the table is
+// reopened or closed.
+func (v *VerifTable) NewCursor(asc bool) *VerifCursor {
+	return &VerifCursor{it: v.t.NewIterator(&utils.Options{IsAsc: asc})}
+}
+
+func (c *VerifCursor) Rewind()         { c.it.Rewind() }
+func (c *VerifCursor) Seek(key []byte) { c.it.Seek(key) }
+func (c *VerifCursor) Next()           { c.it.Next() }
+func (c *VerifCursor) Valid() bool     { return c.it.Valid() }
+
+// Entry returns a copy of the current entry (nil when the iterator is not valid).
+func (c *VerifCursor) Entry() *kv.Entry {
+	if !c.it.Valid() || c.it.Item() == nil || c.it.Item().Entry() == nil {
+		return nil
+	}
+	e := c.it.Item().Entry()
+	return &kv.Entry{Key: kv.SafeCopy(nil, e.Key), Value: kv.SafeCopy(nil, e.Value), Meta: e.Meta, ExpiresAt: e.ExpiresAt}
+}
+
+func (c *VerifCursor) Close() { _ = c.it.Close() }
